@@ -170,6 +170,8 @@ def run(db, tier):
     from props import c05
     rep.rule("R-TRAVERSAL", "register collection and register substitution walk the same LowerArg shapes, recursively through DiffSwitch (shared with C05)")
     c05.rule_traversal(db, rep, db.fn(c05.AR))
+    from props import c14
+    rep.absorb(c14.run(db, rep.tier), rules=("R-SWITCH-MASK", "R-BITS"), why="difficulty-switch elaboration decides which copy of an instruction runs on each difficulty")
     return rep
 
 
